@@ -8,22 +8,26 @@ import MRB.Traits
 namespace MRB.Props.C16
 open MRB MRB.Traits
 
-/-- Safe code can move an iterator — plain, detached, async or async-detached — to another thread only if it
-    belongs to a concurrent buffer and its item type is itself sendable. -/
+set_option maxRecDepth 8000 in
+/-- Safe code can move an iterator — plain, detached, async or async-detached, or a future that borrows one — to another
+    thread only if it belongs to a concurrent buffer and its item type is itself sendable. -/
 theorem C16_send_only_concurrent_sendable (t : Ty) (h : isSend t = true) : t.concurrent = true ∧ t.itemSend = true := by
   have : ∀ t ∈ allTys, isSend t = true → t.concurrent = true ∧ t.itemSend = true := by decide
   exact this t (mem_allTys t) h
 
+set_option maxRecDepth 8000 in
 /-- Iterators of local buffers, in any wrapper and for any item type, are neither `Send` nor `Sync`. -/
 theorem C16_local_never_send_nor_sync (t : Ty) (h : t.concurrent = false) : isSend t = false ∧ isSync t = false := by
   have : ∀ t ∈ allTys, t.concurrent = false → isSend t = false ∧ isSync t = false := by decide
   exact this t (mem_allTys t) h
 
+set_option maxRecDepth 8000 in
 /-- No iterator type is `Sync` at all (sharing by reference is never needed: every operation takes `&mut self`). -/
 theorem C16_never_sync (t : Ty) : isSync t = false := by
   have : ∀ t ∈ allTys, isSync t = false := by decide
   exact this t (mem_allTys t)
 
+set_option maxRecDepth 8000 in
 /-- Non-vacuity: the intended uses do compile — every wrapper of a concurrent buffer over sendable items is `Send`. -/
 theorem C16_concurrent_sendable_is_send (t : Ty) (hc : t.concurrent = true) (hs : t.itemSend = true) : isSend t = true := by
   have : ∀ t ∈ allTys, t.concurrent = true → t.itemSend = true → isSend t = true := by decide
